@@ -353,6 +353,11 @@ def run_property(prop, tier, seed):
 
     replay_dir = os.path.join(env.VERIF, 'replay', prop)
     os.makedirs(replay_dir, exist_ok=True)
+    for old in os.listdir(replay_dir):      # witnesses of earlier runs
+        try:
+            os.unlink(os.path.join(replay_dir, old))
+        except OSError:
+            pass
     lines_out = []
     for k, (v, ent) in listed.items():
         lines_out.append('KNOWN-FINDING: property=%s %s [key=%s, seen %d times]'
